@@ -708,9 +708,11 @@ fn size_families(rep: &Report, thorough: bool) {
         ("loop-run", vec![8_000, 16_000, 32_000, 64_000], Box::new(|n| format!("start:\nmov cx,{}\nL:\ninc ax\nloop L\n", n))),
         ("rep-run", vec![8_000, 16_000, 32_000, 64_000], Box::new(|n| format!("start:\nmov cx,{}\nrep stos byte\n", n))),
         ("print-big-range", vec![125_000, 250_000, 500_000, 1_000_000], Box::new(|n| format!("start:\nprint mem 0 -> {}\n", n))),
+        // many statements on ONE line (the grammar is white-space insensitive)
+        ("one-line-program", vec![500, 1_000, 2_000, 4_000], Box::new(|n| format!("start: {}\n", "mov ax,1 ".repeat(n)))),
     ];
     let fams = &fams;
-    let results: std::sync::Mutex<Vec<(String, usize, usize, f64, String)>> = std::sync::Mutex::new(Vec::new());
+    let results: std::sync::Mutex<Vec<(String, usize, usize, f64, String, f64)>> = std::sync::Mutex::new(Vec::new());
     let jobs: Vec<(usize, usize)> = (0..fams.len()).flat_map(|f| (0..4).map(move |k| (f, k))).collect();
     // one job per core at most half of the cores: these runs are timed
     let next = std::sync::atomic::AtomicUsize::new(0);
@@ -728,7 +730,7 @@ fn size_families(rep: &Report, thorough: bool) {
                 let out = run_cli(src.as_bytes(), &CliOpts { env: vec![("VERIF_NOMEM", "1")], timeout_s: 300.0, cap: 64 << 20, ..Default::default() });
                 let head: String = src.chars().take(60).collect();
                 judge_cli(rep, &out, "size-family", name, format!("<{} with n={}; begins {:?}>", name, n, head).as_bytes(), b"", false, Some(format!("s{}-{}", name, k)));
-                results.lock().unwrap().push((name.to_string(), k, n, out.wall, if out.clean_exit() { "ok".into() } else { out.status_str() }));
+                results.lock().unwrap().push((name.to_string(), k, n, out.wall, if out.clean_exit() { "ok".into() } else { out.status_str() }, out.cpu));
             });
         }
     });
@@ -736,7 +738,7 @@ fn size_families(rep: &Report, thorough: bool) {
     r.sort_by(|a, b| (&a.0, a.1).cmp(&(&b.0, b.1)));
     let mut line = String::new();
     let mut cur = String::new();
-    for (name, _k, n, wall, st) in &r {
+    for (name, _k, n, wall, st, _cpu) in &r {
         if *name != cur {
             if !line.is_empty() {
                 rep.note(line.clone());
@@ -749,12 +751,45 @@ fn size_families(rep: &Report, thorough: bool) {
     if !line.is_empty() {
         rep.note(line);
     }
-    // growth: time(8n)/time(n) beyond 64x (quadratic) is reported in the evidence; a verdict needs a watchdog too
+    // growth, judged on CPU time (not wall clock) and only where the largest size costs at least half a CPU second:
+    // the exponent between size x and size 4x (linear 1.0, n log n about 1.1, quadratic 2.0); a suspicious family is
+    // measured again twice, one process at a time, and the smallest times decide
     for f in 0..fams.len() {
-        let name = fams[f].0;
-        let t: Vec<f64> = (0..4).filter_map(|k| r.iter().find(|x| x.0 == name && x.1 == k).map(|x| x.3)).collect();
-        if t.len() == 4 && t[0] > 0.05 && t[3] / t[0] > 100.0 {
-            rep.note(format!("super-quadratic growth suspected in family {}: {:.2}s -> {:.2}s for 8x the size (reported, not judged without a watchdog)", name, t[0], t[3]));
+        let (name, sizes, mk) = &fams[f];
+        let cpu_of = |k: usize| r.iter().find(|x| x.0 == *name && x.1 == k && x.4 == "ok").map(|x| (x.2, x.5));
+        let (a, b) = match (cpu_of(1), cpu_of(3)) {
+            (Some(a), Some(b)) => (a, b),
+            _ => continue,
+        };
+        if b.1 < 0.5 || a.1 <= 0.0 {
+            continue;
+        }
+        let expo = |ta: f64, tb: f64, na: usize, nb: usize| (tb / ta.max(0.005)).ln() / ((nb as f64) / (na as f64)).ln();
+        rep.count("size families whose growth in CPU time was judged", 1);
+        let e1 = expo(a.1, b.1, a.0, b.0);
+        if e1 <= 1.6 {
+            continue;
+        }
+        let mut ta = a.1;
+        let mut tb = b.1;
+        let mult = if *name == "macro-uses" || name.starts_with("macro-chain") { 1 } else { scale.min(2) };
+        for _ in 0..2 {
+            for (k, t) in [(1usize, &mut ta), (3usize, &mut tb)] {
+                let out = run_cli(mk(sizes[k] * mult).as_bytes(), &CliOpts { env: vec![("VERIF_NOMEM", "1")], timeout_s: 300.0, cap: 64 << 20, ..Default::default() });
+                if out.clean_exit() && out.cpu > 0.0 && out.cpu < *t {
+                    *t = out.cpu;
+                }
+            }
+        }
+        let e2 = expo(ta, tb, a.0, b.0);
+        rep.note(format!("growth of family {}: CPU {:.2}s at n={} -> {:.2}s at n={} (exponent {:.2}; first measurement {:.2})", name, ta, a.0, tb, b.0, e2, e1));
+        if e2 > 1.6 && tb >= 0.5 {
+            rep.fail(Failure {
+                sig: format!("cli:size-family:{}:super-linear-time", name),
+                what: format!("C15: processing time grows faster than the input (family {}: about n^{:.1})", name, e2),
+                witness: format!("{{\"kind\": \"cli-timing\", \"family\": \"{}\", \"n_small\": {}, \"cpu_small_s\": {:.3}, \"n_large\": {}, \"cpu_large_s\": {:.3}, \"exponent\": {:.2}, \"input_begins\": {}}}", name, a.0, ta, b.0, tb, e2, json_str(&mk(sizes[0]).chars().take(80).collect::<String>())),
+                core_item: Some(format!("growth|{}", name)),
+            });
         }
     }
 }
@@ -775,4 +810,4 @@ pub fn run(rep: &Report) {
     rep.floor("in-process texts", rep.evals(), 20_000);
 }
 
-pub const RULE: &str = "texts: 40 fixed edge inputs (empty, no final newline, only comments, CR/LF, NUL, non-ASCII in comments/strings/code, unbalanced quotes/brackets/braces, malformed and recursive macros, huge constants), character-level mutations (delete/insert/replace with structural characters, control and multi-byte characters; duplicate/delete chunks; truncate; grow numbers; splice dictionary tokens; swap lines) of generated valid programs and of a macro program, token soup from the grammar's dictionary, digit strings of 1..20000 (in process) and up to 100000 digits (binary), macro chains of depth 1..200 (in process) and up to 4096 (binary), data-loader lines and interpreter lines mutated the same way (the data loader also after SETs that move the counter to the end of memory). In-process targets (Preprocessor, DataParser, Interpreter) run under catch_unwind inside worker child processes; a worker's death (stack overflow, abort) is observed by the parent and attributed to the case it was running. The binary is run on byte-mutated source files (incl. invalid UTF-8) with mixed prompt answers, on fixed programs whose prompts / console services receive hostile stdin lines (huge numbers, invalid UTF-8, NUL, CR/LF, end of input in the middle of a line), and on 22 size/depth families at four doubling sizes (timed; growth reported). Verdict per run: panic (exit 101), abort/signal, or spin (output cap exceeded) is a violation; a watchdog alone is inconclusive. Distinct = (target, family, outcome, log2 length). Valid generated programs whose first physical line holds code, walked to the end free and under -i; files of 257..65537 lines that stop in the middle of a construct. A flood is a spin only when megabytes of output follow the last hook record (a looping program keeps producing records).";
+pub const RULE: &str = "texts: 40 fixed edge inputs (empty, no final newline, only comments, CR/LF, NUL, non-ASCII in comments/strings/code, unbalanced quotes/brackets/braces, malformed and recursive macros, huge constants), character-level mutations (delete/insert/replace with structural characters, control and multi-byte characters; duplicate/delete chunks; truncate; grow numbers; splice dictionary tokens; swap lines) of generated valid programs and of a macro program, token soup from the grammar's dictionary, digit strings of 1..20000 (in process) and up to 100000 digits (binary), macro chains of depth 1..200 (in process) and up to 4096 (binary), data-loader lines and interpreter lines mutated the same way (the data loader also after SETs that move the counter to the end of memory). In-process targets (Preprocessor, DataParser, Interpreter) run under catch_unwind inside worker child processes; a worker's death (stack overflow, abort) is observed by the parent and attributed to the case it was running. The binary is run on byte-mutated source files (incl. invalid UTF-8) with mixed prompt answers, on fixed programs whose prompts / console services receive hostile stdin lines (huge numbers, invalid UTF-8, NUL, CR/LF, end of input in the middle of a line), and on 22 size/depth families at four doubling sizes (timed; growth reported). Verdict per run: panic (exit 101), abort/signal, or spin (output cap exceeded) is a violation; a watchdog alone is inconclusive. Distinct = (target, family, outcome, log2 length). Valid generated programs whose first physical line holds code, walked to the end free and under -i; files of 257..65537 lines that stop in the middle of a construct. A flood is a spin only when megabytes of output follow the last hook record (a looping program keeps producing records). Growth is judged on CPU time (sampled from /proc, not wall clock): for every size family whose largest run costs at least 0.5 CPU seconds the exponent between size x and size 4x must stay below 1.6 (linear 1.0, quadratic 2.0); a suspicious family is measured twice more, one process at a time, and the smallest times decide.";
